@@ -114,7 +114,8 @@ func (fr *frame) assertInvariants(st *PState, b *ssa.BasicBlock, ord int, invs [
 	for i, c := range invs {
 		t, err := env.TrBool(c.Expr)
 		if err != nil {
-			bail("loop %d invariant %q: %v", ord, c.Src, err)
+			tc.clauseErr(c.Label, fmt.Sprintf("loop %d invariant %q: %v", ord, c.Src, err))
+			continue
 		}
 		label := c.Label
 		o := &Obligation{Name: fmt.Sprintf("%s/%s/%s:loop%d.%d", ShortName(tc.fn.String()), label, kind, ord, i+1), Func: tc.fn.String(), Label: label,
@@ -550,7 +551,8 @@ func (fr *frame) assertSteps(st *PState, b *ssa.BasicBlock, ord int) {
 	for i, c := range steps {
 		t, err := env.TrBool(c.Expr)
 		if err != nil {
-			bail("loop %d step %q: %v", ord, c.Src, err)
+			tc.clauseErr(c.Label, fmt.Sprintf("loop %d step %q: %v", ord, c.Src, err))
+			continue
 		}
 		tc.addObl(&Obligation{Name: fmt.Sprintf("%s/%s/step:loop%d.%d", ShortName(tc.fn.String()), c.Label, ord, i+1), Func: tc.fn.String(), Label: c.Label,
 			Kind: "step", Decls: append([]string(nil), st.decls...), PC: append([]T(nil), st.pc...), Goal: t, Src: "step " + c.Src})
